@@ -35,7 +35,10 @@ var (
 	hostsLo  = []string{"foo.com", "bar.org", "a.b", "*.example.com", "", ":8080"}
 	paths    = []string{"/", "/foo", "/foo/bar", "/Foo", "/api/", "", "/z*", "/fo", "/FOO/x", "/Z"}
 	dsts     = []string{"http://10.0.0.1:8080/", "http://10.0.0.2:8080", "https://host-1:443/x", "tcp://10.0.0.3:5000",
-		"HTTP://UPPER:80/", "http://h/%7Efoo", "http://[::1]:80/", "http://10.0.0.1:8080"}
+		"HTTP://UPPER:80/", "http://h/%7Efoo", "http://[::1]:80/", "http://10.0.0.1:8080",
+		// destinations with credentials (url.URL.User is a pointer: equal texts, distinct values),
+		// a query, an empty port
+		"http://user:pw@10.0.0.4:8080/", "http://user@10.0.0.4:8080/", "https://u:p@host-1:443/x?q=1", "http://10.0.0.5:/"}
 	badHosts = []string{"[", "a[.com", "{a,b.com", "\\", "A[.com", "*.ok.com", "{x,y}.com", "ok.com"}
 	tagPool = []string{"a", "b", "c", "blue", "green", "a b"}
 	optPool = []string{"strip=/foo", "proto=https", "host=dst", "k", "a=b=c", "strip=/bar", "prepend=/p", "=v", "tlsskipverify=true"}
@@ -659,6 +662,12 @@ func doScript(run *vh.Run, class, text string) {
 
 // directed scripts: one per guard / branch of the anchored code
 var directed = []string{
+	// destinations are compared as texts: credentials, query, letter case of the scheme
+	"route add svc-a foo.com/ http://user:pw@10.0.0.4:8080/\nroute add svc-a foo.com/ http://user:pw@10.0.0.4:8080/",
+	"route add svc-a foo.com/ http://user:pw@10.0.0.4:8080/\nroute add svc-a foo.com/ http://10.0.0.1:8080/\nroute del svc-a foo.com/ http://user:pw@10.0.0.4:8080/",
+	"route add svc-a foo.com/ http://user:pw@10.0.0.4:8080/\nroute add svc-a foo.com/ http://user@10.0.0.4:8080/\nroute add svc-a foo.com/ http://10.0.0.4:8080/\nroute del svc-a foo.com/ http://user@10.0.0.4:8080/",
+	"route add svc-a foo.com/ http://user:pw@10.0.0.4:8080/ weight 0.2\nroute add svc-b foo.com/ http://10.0.0.1:8080/\nroute add svc-a foo.com/ HTTP://user:pw@10.0.0.4:8080/ weight 0.2",
+	"route add svc-a foo.com/ https://u:p@host-1:443/x?q=1\nroute add svc-a foo.com/ https://u:p@host-1:443/x?q=2\nroute del svc-a foo.com/ https://u:p@host-1:443/x?q=1",
 	// de-duplication: same service, URL text, weight, tags; options are not part of the key
 	"route add svc-a foo.com/ http://10.0.0.1:8080/\nroute add svc-a foo.com/ http://10.0.0.1:8080/",
 	"route add svc-a foo.com/ http://10.0.0.1:8080/\nroute add svc-a FOO.com/ http://10.0.0.1:8080/",
